@@ -13,6 +13,9 @@
 #include <set>
 #include <sstream>
 #include <unordered_set>
+#include <csignal>
+#include <fcntl.h>
+#include <unistd.h>
 
 using namespace vf;
 
@@ -48,6 +51,13 @@ const Profile kProfiles[] = {
 	                   {34, 24, 6,  8,  5, 5, 4, 8, 2, 2}, {1, 0, 0}, 12, 12, 40, 15},
 	{"neutral",        {30, 14, 8,  20, 18, 0,   0,   0,   0,  0,   0,  0,  0,  0,  0,  0,  0,  0},
 	                   {40, 36, 24, 0,  0, 0, 0, 0, 0, 0}, {1, 0, 0}, 12, 14, 0, 20},
+	// scenarios that use exactly one optional feature (C19: switching on any *other* feature must not change them)
+	{"plans_only",     {30, 8,  2,  8,  6,  24,  2,   5,   8,  5,   0,  0,  0,  0,  0,  0,  0,  0},
+	                   {26, 12, 6,  14, 8, 8, 5, 16, 2, 5}, {1, 0, 0}, 16, 14, 40, 20},
+	{"serial_only",    {16, 6,  2,  10, 18, 0,   0,   0,   0,  0,   0,  0,  20, 24, 0,  0,  0,  0},
+	                   {50, 26, 14, 0,  0, 0, 0, 0, 0, 0}, {1, 0, 0}, 14, 10, 30, 15},
+	{"history_only",   {22, 8,  2,  14, 20, 0,   0,   0,   0,  0,   0,  0,  0,  0,  14, 0,  0,  0},
+	                   {34, 32, 24, 0,  0, 0, 0, 0, 0, 0}, {3, 2, 0}, 14, 14, 40, 20},
 };
 const int kProfileCount = sizeof(kProfiles) / sizeof(kProfiles[0]);
 
@@ -157,6 +167,19 @@ std::string argOf(int argc, char** argv, const char* name, const char* def) {
 	return def;
 }
 
+// ---- watchdog: a case that does not finish within the alarm is saved (async-signal-safe) and the process exits with 97 ------
+uint8_t g_curCase[16384]; size_t g_curLen = 0; char g_hangPath[512] = {0};
+void onAlarm(int) {
+	if (g_hangPath[0]) { const int fd = open(g_hangPath, O_WRONLY | O_CREAT | O_TRUNC, 0644); if (fd >= 0) { ssize_t r = write(fd, g_curCase, g_curLen); (void) r; close(fd); } }
+	_exit(97);
+}
+void armWatchdog(const Case& c, unsigned secs) {
+	const auto b = encode(c);
+	g_curLen = b.size() < sizeof g_curCase ? b.size() : sizeof g_curCase;
+	memcpy(g_curCase, b.data(), g_curLen);
+	alarm(secs);
+}
+
 uint32_t armedFor(int prop) { return prop == 0 ? 0xFFFFFFFEu : (1u << prop); }
 
 int cmdPbt(int argc, char** argv) {
@@ -176,10 +199,14 @@ int cmdPbt(int argc, char** argv) {
 	static EvalCtx X;
 	static Stats st;
 	static Case lastFail; static std::string lastMsg; static bool haveFail = false;
+	snprintf(g_hangPath, sizeof g_hangPath, "%s/hang-C%02d-%s.case", outDir.c_str(), prop, tag.c_str());
+	signal(SIGALRM, onAlarm);
 	const bool ok = rc::check("property", [&]() {
 		const Case c = *genCase(*prof);
 		Verdict V;
+		armWatchdog(c, 20);
 		evaluate(c, armed, V, X);
+		alarm(0);
 		++st.evaluations; st.runs = X.runs;
 		st.normalised += X.main.normalised; st.excludedVeto += X.main.excludedVeto;
 		if (X.main.overflow) ++st.overflow;
@@ -224,7 +251,9 @@ int cmdReplay(int argc, char** argv) {
 		if (!readFile(argv[i], bytes)) { fprintf(stderr, "cannot read %s\n", argv[i]); return 2; }
 		const Case c = decode(bytes.data(), bytes.size());
 		Verdict V;
+		g_hangPath[0] = 0; signal(SIGALRM, onAlarm); alarm(10);
 		evaluate(c, armedFor(prop), V, X);
+		alarm(0);
 		++n;
 		if (!V.v.empty()) {
 			++bad;
@@ -279,7 +308,11 @@ int cmdEmit(int argc, char** argv) {
 }
 
 int cmdDigest(int argc, char** argv) {
-	const int mode = atoi(argOf(argc, argv, "--mode", "1").c_str());
+	int mode = atoi(argOf(argc, argv, "--mode", "-1").c_str());
+	if (mode == 0) mode = DG_ALL; else if (mode == 1) mode = DG_NOLOG; else if (mode == 2) mode = DG_CORE;   // legacy mode numbers
+	const std::string maskArg = argOf(argc, argv, "--mask", "");
+	if (!maskArg.empty()) mode = atoi(maskArg.c_str());
+	if (mode < 0) mode = DG_NOLOG;
 	const int prop = atoi(argOf(argc, argv, "--prop", "-1").c_str());
 	std::string file;
 	for (int i = 2; i < argc; ++i) { if (argv[i][0] == '-' && argv[i][1] == '-') { ++i; continue; } file = argv[i]; }
